@@ -1023,6 +1023,13 @@ def run(ctx):
                                                                         "exact_values_far": [str(x) for x in far], "n": NF},
                               f"{gname} after the loop diverges (dominant growing term in the validated numerator; exact conditional values "
                               f"at n = {N}, {(N + NF) // 2}, {NF}: {', '.join(str(x) for x in far)}) but {how} is {pv}\n{text}")
+        elif pv in ("!nan", "!zoo"):
+            # neither a number nor an infinity is ever the answer: every term of the conditional sequence is a finite number, so
+            # its limit is a number, +oo, -oo, or does not exist
+            ctx.violation(f"after-loop-nan:{text}:{gname}", {"program_text": text, "goal": gname, "printed": shown, "value": pv,
+                                                              "exact_values_far": [str(x) for x in far], "n": NF},
+                          f"{gname} after the loop: {how} is {pv[1:]}; the exact conditional values at n = {N}, {(N + NF) // 2}, {NF} are "
+                          f"{', '.join(str(x) for x in far)}\n{text}")
         else:
             # unknown shape: validation against the exact values only
             if val is not None and all(x is not None for x in far):
